@@ -21,7 +21,28 @@ SPECDIR = os.path.join(vlib.BUILD, "spec816")
 SNAPDIR = os.path.join(vlib.COQ, "Snapshot")
 if "Snapshot" not in vlib.COQ_ARGS:
     vlib.COQ_ARGS += ["-Q", SNAPDIR, "Snapshot"]
-PROOF_FILES = ["C01Base", "C01Shift", "C01OpsA", "C01OpsB", "C01OpsC", "C01OpsD", "C01OpsE", "C01OpsF", "C01OpsG", "C01OpsH", "C01Flow", "C01Imm", "C01OpsI", "C01OpsJ", "C01OpsK", "C01Props"]
+
+
+def _proof_files():
+    """The C01 proof files, in the order of coq/_CoqProject (a dependency order)."""
+    out = []
+    for line in open(os.path.join(vlib.COQ, "_CoqProject")):
+        m = re.match(r"Props/(C01[A-Za-z0-9_]*)\.v\s*$", line.strip())
+        if m:
+            out.append(m.group(1))
+    return out
+
+
+PROOF_FILES = _proof_files()
+
+
+def _proof_deps(n):
+    src = open(os.path.join(vlib.COQ, "Props", n + ".v")).read()
+    deps = []
+    for m in re.finditer(r"From Props Require Import ([^.]*)\.", src):
+        deps += [x for x in m.group(1).split() if x in PROOF_FILES]
+    return deps
+
 CORPUS = os.path.join(vlib.ROOT, "corpus", "C01", "cases.txt")
 SNAPSHOT = os.path.join(vlib.COQ, "Snapshot", "GenCpu65.v")
 
@@ -271,7 +292,8 @@ def hygiene():
 
 
 def live_replay(ck):
-    """Compile the proof files of Props/ against the REGENERATED model (From Gen instead of From Snapshot)."""
+    """Compile the proof files of Props/ against the REGENERATED model (From Gen instead of From Snapshot), in
+    dependency waves (every file whose imports are done is compiled in parallel)."""
     names = {}
     for n in PROOF_FILES:
         src = open(os.path.join(vlib.COQ, "Props", n + ".v")).read()
@@ -282,27 +304,18 @@ def live_replay(ck):
         vlib.write_if_changed(path, src)
         names[n] = path
     t0 = __import__("time").time()
-    rc, out, _, _ = vlib.coqc(names["C01Base"], timeout=1200)
-    if rc != 0:
-        return False, "C01Base (infrastructure, Step_imp8) against the regenerated model:\n" + out[-1500:], 0
-    rc, out, _, _ = vlib.coqc(names["C01Shift"], timeout=1200)
-    if rc != 0:
-        return False, "C01Shift against the regenerated model:\n" + out[-1500:], 0
-    imm_ops = ("C01OpsI", "C01OpsJ", "C01OpsK")
-    ops = [n for n in PROOF_FILES if (n.startswith("C01Ops") and n not in imm_ops) or n == "C01Flow"]
-    res = vlib.parallel([(lambda n=n: vlib.coqc(names[n], timeout=2400)) for n in ops], workers=10)
-    for n, (rc, out, _, _) in zip(ops, res):
-        if rc != 0:
-            return False, "%s against the regenerated model:\n%s" % (n, out[-1500:]), 0
-    rc, out, _, _ = vlib.coqc(names["C01Imm"], timeout=1200)
-    if rc != 0:
-        return False, "C01Imm against the regenerated model:\n" + out[-1500:], 0
-    res = vlib.parallel([(lambda n=n: vlib.coqc(names[n], timeout=2400)) for n in imm_ops], workers=4)
-    for n, (rc, out, _, _) in zip(imm_ops, res):
-        if rc != 0:
-            return False, "%s against the regenerated model:\n%s" % (n, out[-1500:]), 0
-    rc, out, _, _ = vlib.coqc(names["C01Props"], timeout=1200)
-    return rc == 0, out[-1500:], __import__("time").time() - t0
+    deps = {n: set(_proof_deps(n)) for n in PROOF_FILES}
+    done = set()
+    while len(done) < len(PROOF_FILES):
+        wave = [n for n in PROOF_FILES if n not in done and deps[n] <= done]
+        if not wave:
+            return False, "cyclic imports among the C01 proof files", 0
+        res = vlib.parallel([(lambda n=n: vlib.coqc(names[n], timeout=3000)) for n in wave], workers=12)
+        for n, (rc, out, _, _) in zip(wave, res):
+            if rc != 0:
+                return False, "%s against the regenerated model:\n%s" % (n, out[-1500:]), 0
+        done |= set(wave)
+    return True, "", __import__("time").time() - t0
 
 
 def props_obligations(ck):
@@ -346,8 +359,10 @@ Print Assumptions C01_hypotheses_satisfiable.
     ck.cov["proved_fraction"] = "%d/256" % n
     ck.cov["proved_note"] = ("opcodes outside proved_opcodes (%d of 256) are covered by the differential run only" % (256 - n))
     used = set()
-    for dline in re.findall(r"snapshot_dep:\s*([A-Za-z_0-9 ,\n]+?)\n\s*\n", src):
-        used |= {x.strip() for x in dline.replace("\n", " ").split(",") if x.strip()}
+    for n in PROOF_FILES:
+        fsrc = open(os.path.join(vlib.COQ, "Props", n + ".v")).read()
+        for dline in re.findall(r"snapshot_dep:\s*([A-Za-z_0-9 ,\n]+?)(?:\*\)|\n\s*\n)", fsrc):
+            used |= {x.strip() for x in dline.replace("\n", " ").split(",") if re.fullmatch(r"[A-Za-z_0-9]+", x.strip())}
     delta = snapshot_delta()
     if delta is None:
         ck.oblige("snapshot of the generated primary model present (coq/Snapshot/GenCpu65.v)", False, "missing")
